@@ -176,7 +176,14 @@ func runSched(job *Job, out *Out) {
 				continue
 			}
 		}
-		st := exploreScenario(sp, job, deadline, out)
+		// no scenario may eat the whole budget: at most a third of what is left (at least 20 s)
+		dl := deadline
+		if left := time.Until(deadline); left > 60*time.Second {
+			if cap := time.Now().Add(left / 3); cap.Before(dl) {
+				dl = cap
+			}
+		}
+		st := exploreScenario(sp, job, dl, out)
 		out.Stats = append(out.Stats, st)
 	}
 }
@@ -267,7 +274,7 @@ func exploreScenario(sp Spec, job *Job, deadline time.Time, out *Out) Stat {
 		}
 		// samples: the default schedule, the first with a hand-over, the first with a preemption
 		want := (len(samples) == 0 && len(devs) == 0) || (len(samples) == 1 && x.Handovers > 0) || (len(samples) == 2 && cost > 0 && x.Handovers > 1)
-		if want && job.Shard == 0 {
+		if want {
 			samples = append(samples, Sample{Scenario: sp.Name, Devs: append([]sched.Dev{}, devs...), Cost: cost, Points: len(x.Points), Switches: switchesOf(x), Obs: curObs})
 		}
 	}
